@@ -23,7 +23,8 @@ Inductive stmt :=
 | SIfmax (name : option string) (c : cond) (effs : list effect)
 | SFree                       (* `a >> b` outside any ifmax *)
 | SRaise                      (* the body raises *)
-| SNested (body : list stmt). (* a nested `with ActionSelection():` *)
+| SNested (body : list stmt)  (* a nested `with ActionSelection():` *)
+| SNestedCaught.              (* a nested `with ActionSelection():` whose error is caught by the body, which continues *)
 
 Record gstate := G { active : bool; routed : bool; free : nat; conns : nat }.
 Definition rest (c : nat) : gstate := G false false 0 c.
@@ -43,6 +44,7 @@ Definition exec_stmt (g : gstate) (b : block) (s : stmt) : gstate * block * opti
   | SFree => (G (active g) (routed g) (S (free g)) (conns g), b, None)
   | SRaise => (g, b, Some AOtherError)
   | SNested _ => (g, b, Some ASelError)      (* inner __enter__ fails, nothing changes *)
+  | SNestedCaught => (g, b, None)            (* ... and the enclosing block goes on as if nothing had happened *)
   | SIfmax name c effs =>
       (* argument evaluation: every routing expression is created free-floating *)
       let g1 := G (active g) (routed g) (free g + count_routes effs) (conns g) in
